@@ -1,4 +1,4 @@
 ---- MODULE LineFrameGen ----
 EXTENDS LineFrame, Json
-Dump == (fed = Len(input)) => PrintT(<<"LF", ToJson([input |-> input, cuts |-> cuts, out |-> out, raw |-> raw])>>)
+Dump == (fed = Len(input) \/ err) => PrintT(<<"LF", ToJson([input |-> input, cuts |-> cuts, out |-> out, raw |-> raw, err |-> err])>>)
 ====
